@@ -479,13 +479,18 @@ void c18_generator_stages ()
             uint64_t pre = lcg_prev (x);
             if (x == 0) ++z48;
             if (x == M48) ++m48;
+            // self-check of the HARNESS's inverse against the harness's own forward recurrence (never against the library:
+            // a library whose generator deviates must produce a violation of the library site below, not a machinery error)
+            if (lcg (pre) != x) R ().fail ("oracle.selfcheck.lcg-inverse", st (pre), st (x), st (lcg (pre)));
             for (size_t k = 0; k < NR; ++k)
             {
                 IM::Rand48 r (0);
                 unpack (pre, r._state);
                 double got = r.nextf (RANGES[k].a, RANGES[k].b);
                 ++n48;
-                if (pack (r._state) != x) R ().fail ("oracle.selfcheck.lcg-inverse", st (pre));
+                // one draw advances the state by exactly one step of the POSIX recurrence (statement: Rand48 is rand48-compatible)
+                if (pack (r._state) != x)
+                    R ().fail ("Rand48::nextf(a,b).successor-state", "state " + st (pre) + " a=" + fmt (RANGES[k].a) + " b=" + fmt (RANGES[k].b), st (x), st (pack (r._state)));
                 if (!in_range<double> (got, RANGES[k].a, RANGES[k].b))
                     R ().fail (x == 0 ? "Rand48::nextf(a,b).range.f=0" : (x == M48 ? "Rand48::nextf(a,b).range.f=max" : "Rand48::nextf(a,b).range.boundary-states"),
                                "successor state " + st (x) + " a=" + fmt (RANGES[k].a) + " b=" + fmt (RANGES[k].b), "between a and b (2 ulp)", fmt (got));
@@ -571,7 +576,16 @@ void c18_generator_stages ()
                     // one draw of each V3f sampler from this state
                     r._state = s64;
                     IM::V3f sv = IM::solidSphereRand<IM::V3f> (r);
-                    if ((uint32_t) r._state != lcg32 (lcg32 (m))) ++rej; // more than three draws: the first tuple was rejected
+                    {
+                        // class predicate on the INPUT (never on the library's state after the call): the first tuple
+                        // (2 f_i - 1), f_i = (low 23 bits of the i-th successor) * 2^-23 taken exactly, lies clearly outside the
+                        // unit ball (|v|^2 > 1 + 2^-16, far beyond any float rounding of the components), so the rejection loop
+                        // has to draw a second tuple
+                        LD       l2 = 0;
+                        uint32_t q  = s;
+                        for (int c = 0; c < 3; ++c) { q = lcg32 (q); LD v = 2 * ((LD) (q & 0x7fffffu) / 8388608.0L) - 1; l2 += v * v; }
+                        if (l2 > 1 + 1.0L / 65536) ++rej;
+                    }
                     IM::V3f hv = IM::hollowSphereRand<IM::V3f> (r);
                     IM::V3f gv = IM::gaussSphereRand<IM::V3f> (r);
                     float   gf = IM::gaussRand (r);
